@@ -20,8 +20,8 @@ from vt.monitors import forkserver, fsmon
 
 ID = 'C10'
 TIERS = {
-    'quick': dict(shards=16, histories=28, watchdog_s=900),
-    'thorough': dict(shards=16, histories=1300, watchdog_s=7000),
+    'quick': dict(shards=16, histories=120, watchdog_s=900),
+    'thorough': dict(shards=16, histories=3000, watchdog_s=7000),
 }
 RULE = ('case = history of 1-8 assertions x reference state {matching, differing, missing} x kind label x regeneration '
         'setting {normal, all, named kinds} given by API or by argv spelling (-W, --write-all, --W, -w k, --w k, --write '
